@@ -199,6 +199,13 @@ u_emit(uint64_t idx, void *arg)
                 }
                 fill_payload(&rg, n * ws);
             }
+            if ((e == E_RD8 || e == E_RD16) && vh_chance(&rg, 1, 3)) {
+                /* read requests carry no payload: the block size can be anything a 32-bit field holds */
+                static const size_t big[] = { 0xff, 0x100, 0xffff, 0x10000, 0x10001, 0x12345, 0xffffff, 0x1000000,
+                                              0x7fffffff, 0x80000000u, 0xfffffffeu, 0xffffffffu };
+                n = big[vh_below(&rg, 12)];
+                VH_COUNT("read request with a block size beyond 16 bits or at the field's extremes");
+            }
             int reqtype = vh_chance(&rg, 1, 2) ? RT_READ_REQ : RT_WRITE_REQ;
             VH_CASE4(idx, k, e, n);
             one_emit(e, serial, mem16, seq, addr, n, reqtype, (uint32_t)vh_rand(&rg) ^ (vh_chance(&rg, 1, 4) ? 0xc0dbu : 0),
@@ -252,4 +259,5 @@ harness_run(void)
     }
     vh_require("frame length at the one/two octet varint boundary");
     vh_require("frame length at the two/three octet varint boundary");
+    vh_require("read request with a block size beyond 16 bits or at the field's extremes");
 }
